@@ -37,6 +37,8 @@ def enc(name, n, v):
         return '0' * n
     if name == 'float':
         return ''.join(format(b, '08b') for b in struct.pack({16: '>e', 32: '>f', 64: '>d'}[n], v))
+    if name == 'bits':
+        return BITS_VALUES[v]
     if name == 'ue':
         x = v + 1
         k = x.bit_length() - 1
@@ -44,8 +46,16 @@ def enc(name, n, v):
     raise KeyError(name)
 
 
+# values of a bits token: literals, and token strings (whose own '=' must not confuse the outer 'bits:n=...' token)
+BITS_VALUES = {'0b101': '101', '0xf3': '11110011', 'uint:8=3': '00000011', 'int:4=-1': '1111', 'hex:8=a5': '10100101', 'bin=0110': '0110', 'se=-7': '0001111',
+               'ue=2': '011', 'bool=True': '1', 'uintle:16=258': '0000001000000001', '0o17': '001111'}
+
+
 def rand_token(rng):
-    name = rng.choice(['uint', 'int', 'uintbe', 'uintle', 'intle', 'hex', 'oct', 'bin', 'bool', 'bytes', 'pad', 'float', 'ue'])
+    name = rng.choice(['uint', 'int', 'uintbe', 'uintle', 'intle', 'hex', 'oct', 'bin', 'bool', 'bytes', 'pad', 'float', 'ue', 'bits'])
+    if name == 'bits':
+        v = rng.choice(sorted(BITS_VALUES))
+        return name, len(BITS_VALUES[v]), v
     if name in ('uint', 'int'):
         n = rng.randint(1, 70)
         v = rng.randrange(0, 1 << n) if name == 'uint' else rng.randrange(-(1 << (n - 1)), 1 << (n - 1))
@@ -119,7 +129,7 @@ def grammar(tier='quick', seed=0):
             ok = p.bin == want
             if ok:
                 back = p.unpack(', '.join(spell(rng, nm, n, False, v) for nm, n, v in toks))
-                exp = [v for nm, n, v in toks if nm != 'pad']
+                exp = [(bitstring.Bits(bin=BITS_VALUES[v]) if nm == 'bits' else v) for nm, n, v in toks if nm != 'pad']
                 ok = len(back) == len(exp) and all((a == b) for a, b in zip(back, exp))
         except Exception as e:
             ok = False
@@ -159,6 +169,25 @@ def grammar(tier='quick', seed=0):
                 pass
             except Exception as e:
                 fails.append({'call': f'pack({plain!r}, *{bad!r})', 'observed': type(e).__name__, 'python': "FAILS = True"})
+    # a stated length that disagrees with the size of the value -- including a stated length of zero -- is refused, by every spelling
+    for name, good_n, v in (('hex', 8, 'ff'), ('bin', 3, '101'), ('oct', 6, '17'), ('bytes', 2, b'ab'), ('bits', 4, '0xf'), ('uint', 8, 255)):
+        for n in (0, good_n - 1 if name in ('bin', 'bits') else good_n * 2):
+            if name == 'uint' and n != 0:
+                continue
+            for how in ('value argument', 'inline value', 'keyword length'):
+                if how == 'inline value' and isinstance(v, bytes):
+                    continue
+                evals += 1
+                call = {'value argument': lambda: pack(f'{name}:{n}', v), 'inline value': lambda: pack(f'uint:8, {name}:{n}={v}, uint:8', 1, 2),
+                        'keyword length': lambda: pack(f'{name}:k', v, k=n)}[how]
+                try:
+                    r = call()
+                    fails.append({'call': f'pack of a {name} token of stated length {n} with the value {v!r} ({how})', 'observed': f'accepted: {len(r)} bits', 'expected': 'CreationError',
+                                  'python': f"import bitstring\ntry:\n    bitstring.pack('{name}:{n}', {v!r})\n    FAILS = True\nexcept ValueError:\n    FAILS = False"})
+                except ValueError:
+                    pass
+                except Exception as e:
+                    fails.append({'call': f'pack of a {name} token of stated length {n} with the value {v!r} ({how})', 'observed': type(e).__name__, 'python': "FAILS = True"})
     # struct-style tokens with several codes, counts and factors: 'k*<hB' is k repetitions of the *group*, i.e. struct.pack('<' + 'hB' * k)
     import struct
     ranges = {'b': (-128, 127), 'B': (0, 255), 'h': (-2 ** 15, 2 ** 15 - 1), 'H': (0, 2 ** 16 - 1), 'l': (-2 ** 31, 2 ** 31 - 1), 'L': (0, 2 ** 32 - 1),
